@@ -323,3 +323,18 @@ func harnessNoteSend(ch any) {
 
 // GC replaces runtime.GC in instrumented code.
 func GC() {}
+
+// Recv / Recv2 replace receive expressions (`<-ch`, `v, ok := <-ch`) wherever they occur.
+func Recv[T any](ch <-chan T) T {
+	BeforeRecv(ch)
+	v := <-ch
+	AfterRecv(ch)
+	return v
+}
+
+func Recv2[T any](ch <-chan T) (T, bool) {
+	BeforeRecv(ch)
+	v, ok := <-ch
+	AfterRecv(ch)
+	return v, ok
+}
